@@ -1264,7 +1264,7 @@ package flags
 //@   requires grp != nil
 //@   loop 1 invariant unfold(manRows(grp, idx_1 + 1)) && unfold(manRows(grp, 0)) && ticks(rows) == manRows(grp, idx_1)
 //@   loop 2 invariant unfold(nShow(group.options, idx_2 + 1)) && unfold(nShow(group.options, 0)) && !group.Hidden && ticks(rows) == manRows(grp, idx_1) + nShow(group.options, idx_2)
-//@   at[C16] call fmt.Fprintln #2: !group.Hidden && !opt.Hidden && tick(rows)
+//@   at[C16] call fmt.Fprintln ".TP": !group.Hidden && !opt.Hidden && tick(rows)
 //@   at[C16] call quoteV #2: len(opt.DefaultMask) == 0
 //@   ensures[C16] ticks(rows) == manRows(grp, iterlen(Group.eachGroup, grp))
 
@@ -1423,8 +1423,8 @@ package flags
 //@   loop 6 invariant forall(k, w0, ncalls(Parser.writeHelpOption), showable(callarg(Parser.writeHelpOption, k, 2)))
 //@   loop 7 invariant unfold(nShow(grp.options, idx_7 + 1)) && unfold(nShow(grp.options, 0)) && !helpSkip(p, c, grp) && ncalls(Parser.writeHelpOption) == w0 + hChain(p, cnt_5) + hRows(p, c, idx_6) + nShow(grp.options, idx_7)
 //@   loop 7 invariant forall(k, w0, ncalls(Parser.writeHelpOption), showable(callarg(Parser.writeHelpOption, k, 2)))
-//@   at[C16] call strings.Join #1: forall(i, 0, len(subcommands), !subcommands[i].Hidden && names[i] == subcommands[i].Name)
-//@   at[C16] call fmt.Fprintf #14: !c.Hidden && subOf(c, cmd)
+//@   at[C16] call strings.Join " | ": forall(i, 0, len(subcommands), !subcommands[i].Hidden && names[i] == subcommands[i].Name)
+//@   at[C16] call fmt.Fprintf "  %s": !c.Hidden && subOf(c, cmd)
 //@   ensures[C16] writer != nil ==> ncalls(Parser.writeHelpOption) == w0 + hChain(p, chainLen(root))
 //@   ensures[C16] forall(k, w0, ncalls(Parser.writeHelpOption), showable(callarg(Parser.writeHelpOption, k, 2)))
 
@@ -1623,8 +1623,8 @@ package flags
 //@   traced
 //@   let v0 := optionValue
 //@   requires use(quote_unquote, optionValue) && use(quote_shape, optionValue)
-//@   at[C12] call fmt.Fprintf #3: optionType == reflect.String || forceQuote ==> iniDecodeOK(optionValue) && iniDecode(optionValue) == v0
-//@   at[C12] call fmt.Fprintf #2: optionType == reflect.String || forceQuote ==> strings.TrimSpace(optionValue) == optionValue && iniMapDecode(optionValue) == v0
+//@   at[C12] call fmt.Fprintf " %s": optionType == reflect.String || forceQuote ==> iniDecodeOK(optionValue) && iniDecode(optionValue) == v0
+//@   at[C12] call fmt.Fprintf " %s:%s": optionType == reflect.String || forceQuote ==> strings.TrimSpace(optionValue) == optionValue && iniMapDecode(optionValue) == v0
 //@   at[C12] call fmt.Fprintln #1: optionKey == "" && optionValue == "" ==> v0 == ""
 
 // Rendering of values (the inverse direction of convert): per kind the
